@@ -1,5 +1,6 @@
 """C02 - a forwarding node never loses money on an HTLC it forwards (structural part)."""
 from engine import *
+import ordimpls
 import provenance
 
 CH = 'lightning::ln::channel::'
@@ -414,4 +415,5 @@ RULES = [
 	('02.z', 'named protocol / policy constants in this property\'s files have their reviewed values (rules/provenance.py)', lambda F: provenance.consts_for_property(F, 'C02', '02.z')),
 	('02.s', 'no reviewed function gained a short-circuiting iterator adaptor (find / find_map / take / position ...: an every-element walk that stops at the first match; rules/provenance.py)', lambda F: provenance.sc_for_property(F, 'C02', '02.s')),
 	('02.y', 'no reviewed function gained a swallowed error (the Result of a fallible in-crate call dropped; rules/provenance.py)', lambda F: provenance.dr_for_property(F, 'C02', '02.y')),
+	('02.o', 'hand-written eq / cmp / partial_cmp / hash impls in this property\'s files: same field on both sides, reviewed direction, no reviewed key lost, hash within eq (rules/ordimpls.py)', lambda F: ordimpls.for_property(F, 'C02', '02.o')),
 ]
